@@ -70,6 +70,8 @@ func awkValues() []any {
 		[]any{map[float64]int{math.NaN(): 1}}, struct{ M map[float64]int }{map[float64]int{math.NaN(): 2}}, // 54-55
 		sliceOp{"~", "custom"}, sliceOp{"", ""}, // 56-57 operators of an uncomparable Go type
 		&stk.Stack{}, pfreed, &pzs, &stk.Condition{}, pfreedc, // 58-62 non-nil pointers to zero / freed instances
+		struct{ fmt.Stringer }{stringerT{"e"}}, struct{ error }{fmt.Errorf("e")}, struct{ fmt.Stringer }{}, // 63-65 embedded interface fields, exported and not
+		struct{ A, b int }{1, 2}, struct{ a, B int }{1, 2}, struct{ privStruct }{}, // 66-68 same shape, visibility swapped
 	}
 }
 
@@ -126,6 +128,15 @@ func runAwkward(raw json.RawMessage) (res *Result, err error) {
 			s.Push(v, "after")
 		case "pushtwice":
 			s.Push(v, v) // two slots holding values of the same (possibly uncomparable) type
+		case "isequalpair":
+			// two stacks that differ in ONE slot: values of (possibly) different types, both directions
+			w := vals[in.Val2]
+			a, b := stk.And().Push("k", v, "z"), stk.And().Push("k", w, "z")
+			_ = a.IsEqual(b)
+			_ = b.IsEqual(a)
+			ca, cb := stk.Cond("k", stk.Eq, v), stk.Cond("k", stk.Eq, w)
+			_ = ca.IsEqual(cb)
+			_ = cb.IsEqual(ca)
 		case "insert":
 			s.Insert(v, 1)
 		case "replace":
@@ -275,6 +286,15 @@ func runAwkward(raw json.RawMessage) (res *Result, err error) {
 
 func genAwkward(ctx *Ctx, emit func(any, string)) {
 	n := len(awkValues())
+	// every ordered pair of catalogue values opposite each other in IsEqual
+	for v := 0; v < n; v++ {
+		for w := 0; w < n; w++ {
+			if ctx.Quick() && (v+w)%3 != 0 && !(v >= 63 && w >= 63) {
+				continue
+			}
+			emit(AwkInput{Recv: "and", Method: "isequalpair", Val: v, Val2: w}, "exhaustive")
+		}
+	}
 	stackRecvs := []string{"and", "list", "basic", "andcap", "negfwd", "enc"}
 	condRecvs := []string{"cond", "condinit", "condstack"}
 	for _, m := range awkMethods {
@@ -298,5 +318,5 @@ func genAwkward(ctx *Ctx, emit func(any, string)) {
 
 func init() {
 	register(&Family{Name: "awkward", Gen: genAwkward, Run: runAwkward,
-		Rule: "exhaustive: 25 methods taking `any`/interfaces (Push, Push of the same value twice, Insert, Replace, IsEqual, Transfer, SetDelimiter, SetSymbol, SetEncap, Set/UnsetLogLevel, SetLogger, Marshal, ConvertStack, ConvertCondition, Cond (each argument), SetKeyword, SetExpression, SetOperator, Condition.IsEqual/SetEncap/Evaluate, Auxiliary.Set) x a catalogue of 63 awkward Go values (typed nils of depth 1-2, zero Stack/Condition/aliases, funcs, chans, maps, private-field structs, NaN, complex, uintptr, unsafe pointer, empty/nil slices, arrays, errors, stringers, pointers to pointers, bogus operators, NaN-keyed maps, operators of an uncomparable type, non-nil pointers to zero and freed instances) x receiver states; then a battery of observers (String, Unmarshal, Marshal of it, IsEqual self/copy both ways, Traverse, IsNesting, Less over every pair of positions, Front, Back, Defrag, Reveal, Push/Pop). Observed: any panic (with the step), receiver still initialised and usable. every case is non-trivial; distinct = input hash"})
+		Rule: "exhaustive: 25 methods taking `any`/interfaces (Push, Push of the same value twice, Insert, Replace, IsEqual, Transfer, SetDelimiter, SetSymbol, SetEncap, Set/UnsetLogLevel, SetLogger, Marshal, ConvertStack, ConvertCondition, Cond (each argument), SetKeyword, SetExpression, SetOperator, Condition.IsEqual/SetEncap/Evaluate, Auxiliary.Set) x a catalogue of 69 awkward Go values (typed nils of depth 1-2, zero Stack/Condition/aliases, funcs, chans, maps, private-field structs, NaN, complex, uintptr, unsafe pointer, empty/nil slices, arrays, errors, stringers, pointers to pointers, bogus operators, NaN-keyed maps, operators of an uncomparable type, non-nil pointers to zero and freed instances, structs with embedded interface fields and swapped field visibility); every ordered pair of catalogue values opposite each other in Stack.IsEqual / Condition.IsEqual (a third of the pairs in the quick tier) x receiver states; then a battery of observers (String, Unmarshal, Marshal of it, IsEqual self/copy both ways, Traverse, IsNesting, Less over every pair of positions, Front, Back, Defrag, Reveal, Push/Pop). Observed: any panic (with the step), receiver still initialised and usable. every case is non-trivial; distinct = input hash"})
 }
